@@ -7,7 +7,7 @@ against what the code says now; (c) observation: harness/drv_threads.cpp under T
 import os, re, subprocess
 import inv_common as IC
 
-LEVEL = "other"
+LEVEL = "proof"     # partial, see EXPLANATION
 EXPLANATION = (
     "partial: data-race freedom under real interleavings is runtime behaviour and is NOT proved. What is proved (Coq, closed "
     "under the global context): every fair interleaving of per-thread operation lists whose operations do not write the shared "
